@@ -81,6 +81,9 @@ func VerifC05Serial() {
 			}
 		case 1: // register a table (and write to it)
 			blocked := vnd.WouldBlock(func() {
+				// a rejected registration (duplicate name) must leave nothing behind
+				_, derr := NewTable[*vobj](db, names[0], vIDIndex)
+				vnd.Assert(derr != nil, "C05.duplicate-table-accepted")
 				t, err := NewTable[*vobj](db, names[2], vIDIndex)
 				if err != nil {
 					panic(err)
